@@ -20,7 +20,7 @@ from ..term import Resolver, pmatch, find_all, abstract, anf_of
 REL = "inference/approx/conditional.py"
 FLOORS = {"float-arithmetic": 1, "edge-search": 1, "inverse-cdf": 1, "taylor-branch": 2, "branch-dispatch": 1, "delta-form": 2, "cell-weight": 1,
           "sample-form": 2, "normalised": 1, "grid-in-bounds": 1,
-          "conditioning-point": 2}
+          "conditioning-point": 2, "every-parameter-covered": 2}
 
 
 def _bracketing(fn):
@@ -310,6 +310,8 @@ def run(prog, tier):
                          f"the conditional must evaluate the posterior at a copy of the conditioning point with only coordinate "
                          f"variable_index replaced; body is {body}", REL, cfn.lineno))
 
+    from .common import column_loop_obligations
+    obs.extend(column_loop_obligations(prog, "every-parameter-covered", REL, ["get_conditionals", "conditional_sample"]))
     obs.extend(dtype_hazard_obligations(prog, "float-arithmetic", ['inference/approx/conditional.py']))
     from .common import call_order_obligations
     obs.extend(call_order_obligations(prog, "arguments-in-order", ['inference/approx/conditional.py']))
